@@ -214,33 +214,33 @@ func buildReport(eng *Engine, prop, tier string, seed int64, cases []*ReplayCase
 	}
 	st := eng.solverStats
 	cov := map[string]interface{}{
-		"states":                        states,
-		"transitions":                   transitions,
-		"traces_validated_against_impl": validated,
-		"samples":                       samples,
-		"explanation":                   "bounded symbolic execution of the SSA of /repo's working tree; states = feasible paths (each decided by the solver), transitions = SSA instructions executed, traces validated = witnesses and counterexamples replayed against the natively compiled code",
-		"paths_by_status":               pathsBy,
-		"functions_encoded":             top(fnEnc, 60),
-		"stdlib_executed_from_source":   top(stdExec, 40),
-		"stubs_hit":                     stubs,
-		"obligations":                   obligations,
-		"queries":                       map[string]int{"sat": st.Sat, "unsat": st.Unsat, "unknown": st.Unknown, "error_lines": st.Errors},
-		"solver_s":                      st.Time.Seconds(),
-		"solver":                        strings.Join(solverArgv, " "),
-		"load_s":                        loadT.Seconds(),
-		"explore_s":                     exploreT.Seconds(),
-		"inconclusive":                  inconc,
-		"path_end_messages":             endMsgs,
-		"bound_cuts":                    boundCuts,
-		"undischarged_assertions":       undisch,
+		"states":                         states,
+		"transitions":                    transitions,
+		"traces_validated_against_impl":  validated,
+		"samples":                        samples,
+		"explanation":                    "bounded symbolic execution of the SSA of /repo's working tree; states = feasible paths (each decided by the solver), transitions = SSA instructions executed, traces validated = witnesses and counterexamples replayed against the natively compiled code",
+		"paths_by_status":                pathsBy,
+		"functions_encoded":              top(fnEnc, 60),
+		"stdlib_executed_from_source":    top(stdExec, 40),
+		"stubs_hit":                      stubs,
+		"obligations":                    obligations,
+		"queries":                        map[string]int{"sat": st.Sat, "unsat": st.Unsat, "unknown": st.Unknown, "error_lines": st.Errors},
+		"solver_s":                       st.Time.Seconds(),
+		"solver":                         strings.Join(solverArgv, " "),
+		"load_s":                         loadT.Seconds(),
+		"explore_s":                      exploreT.Seconds(),
+		"inconclusive":                   inconc,
+		"path_end_messages":              endMsgs,
+		"bound_cuts":                     boundCuts,
+		"undischarged_assertions":        undisch,
 		"harnesses_not_fully_discharged": notDischarged,
-		"unconfirmed_counterexamples":   unconfirmed,
-		"known_findings_matched":        knownMatched,
-		"machinery_errors":              machinery,
-		"bounds":                        harnessBounds(prop, tier),
-		"exhaustive":                    false,
-		"region_merges":                 eng.merges.Load(),
-		"region_merge_aborts":           eng.mergeAborts.Load(),
+		"unconfirmed_counterexamples":    unconfirmed,
+		"known_findings_matched":         knownMatched,
+		"machinery_errors":               machinery,
+		"bounds":                         harnessBounds(prop, tier),
+		"exhaustive":                     false,
+		"region_merges":                  eng.merges.Load(),
+		"region_merge_aborts":            eng.mergeAborts.Load(),
 	}
 	if len(samples) == 0 {
 		cov["samples"] = []interface{}{"no witness"}
